@@ -192,11 +192,11 @@ def concretise(text, rng, style=None):
             if dlm == "COMMA":
                 sep = rng.choice([",", ", ", " , "])
             elif dlm == "TAB":
-                sep = rng.choice(["\t", "\t", " \t", "\t ", " \t "])       # with or without padding blanks
+                sep = rng.choice(["\t", "\t", " \t", "\t ", " \t ", "\t\t"])       # with or without padding blanks; doubled
             else:
                 sep = rng.choice([" ", "   ", "\t", " \t "])
-            lead = rng.choice(["", " ", "    "]) if dlm == "SPACE" else rng.choice(["", "", " "])
-            trail = rng.choice(["", " ", "  "]) if dlm == "SPACE" else rng.choice(["", "", " "])
+            lead = rng.choice(["", " ", "    "]) if dlm == "SPACE" else rng.choice(["", "", " "] + (["\t"] if dlm == "TAB" else []))
+            trail = rng.choice(["", " ", "  "]) if dlm == "SPACE" else rng.choice(["", "", " "] + (["\t"] if dlm == "TAB" else []))
             if dlm != "SPACE" and any(cell["cls"] == "TEXT" for cell in ln["cells"]):
                 # recorded finding D34: lasio keeps the padding blanks of TEXT values under COMMA / TAB (the repository's own
                 # test-suite pins that).  Text rows are therefore padded only by the dedicated probe of C09 (style "padtext").
